@@ -22,7 +22,7 @@ for id in "${seeds[@]}"; do
   results=""
   for c in $checks; do
     rm -rf $S/verif/work/found
-    out=$( cd $S/verif && timeout 3000 harness/target/release/vcheck run $c quick 2>/dev/null ); rc=$?
+    out=$( cd $S/verif && timeout 3000 $S/target/release/vcheck run $c quick 2>/dev/null ); rc=$?
     sig=$(echo "$out" | grep -m1 "signature:" | sed 's/^ *signature: //')
     results="$results$c:$rc:$sig|"
     echo "$id $c exit=$rc $sig"
